@@ -70,6 +70,45 @@ def _plain(v):
     return v
 
 
+class LockLeak(Exception):
+    """A lock was requested while still held by an earlier call of this single-threaded session: it was leaked."""
+
+
+def _detector_locks():
+    class DLock(object):
+        def __init__(self):
+            self._held = False
+
+        def acquire(self, *a, **k):
+            if self._held:
+                raise LockLeak('lock acquired while still held (leaked by an earlier call)')
+            self._held = True
+            return True
+
+        def release(self):
+            self._held = False
+
+        def locked(self):
+            return self._held
+
+        def __enter__(self):
+            self.acquire()
+
+        def __exit__(self, *a):
+            self.release()
+
+    class ADLock(DLock):
+        async def acquire(self, *a, **k):
+            return DLock.acquire(self)
+
+        async def __aenter__(self):
+            DLock.acquire(self)
+
+        async def __aexit__(self, *a):
+            self.release()
+    return DLock, ADLock
+
+
 class Session(object):
     """One device object (sync or async) on an in-memory transport wired to a SimDevice."""
 
@@ -81,14 +120,17 @@ class Session(object):
         self.clock = clock or VClock()
         self.core = transports.PipeCore(self.dev, rec=self.rec, clock=self.clock, **core_kw)
         MemT, MemTA = tclasses()
+        DL, ADL = _detector_locks()
         if mode == 'sync':
             self.module = m['sync']
+            self.module.Lock = DL          # single-threaded sessions: a leaked lock raises instead of blocking forever
             self.module.time = self.clock
             self.transport = MemT(self.core, gate)
             self.device = self.module.AdbDevice(self.transport, default_transport_timeout_s=default_transport_timeout_s, banner=banner)
             self.loop = None
         else:
             self.module = m['asyn']
+            self.module.Lock = ADL
             self.module.time = self.clock
             self.transport = MemTA(self.core, gate)
             self.device = self.module.AdbDeviceAsync(self.transport, default_transport_timeout_s=default_transport_timeout_s, banner=banner)
